@@ -394,7 +394,8 @@ add("C09", H("column", "c09_r_drop_index_restarts_progress", "quick", ["C09.R"],
 IOSUB = ["model: payload of Error::Io / Error::Locked reduced to its ErrorKind (crate::verif_io::IoErr; parity-db only inspects kind()); the drop glue of std::io::Error is not explored"]
 CRCU = ["stub: crc32fast::Hasher::{update, finalize} -> uninterpreted checksum (one fixed arbitrary u32); the real CRC is used in C13.P1b and c13_p3_enact_logs_validation_gate"]
 for fn, tier in (("begin_end", "quick"), ("begin_begin", "thorough"), ("begin_insert_value", "quick"), ("begin_insert_index", "thorough"), ("begin_drop_table", "quick"), ("begin_unknown_tag", "thorough"),
-                 ("begin_only", "quick"), ("begin_torn", "thorough"), ("begin_end_torn", "quick"), ("starts_with_end", "thorough"), ("starts_with_insert", "thorough"), ("empty_file", "thorough")):
+                 ("begin_only", "quick"), ("begin_torn", "thorough"), ("begin_end_torn", "quick"), ("starts_with_insert", "thorough"), ("empty_file", "thorough")):
+    # c13_p3g_gate_starts_with_end is NOT registered: > 30 min without a verdict (a log that starts with EndRecord: the reader validates a checksum over zero bytes and the harness explores the reset / seek path on a symbolic position)
     add("C13", H("db", "c13_p3g_gate_" + fn, tier, ["C13.P3"], "log bytes other than the two action tags (record number, table ids, stored checksum, payload), last_enacted:u64, checksum value:u32",
                  "record shape (action tags, truncation offset) as named; database without columns; one enact_logs(validation) call; unwind 20", 1500, 10, variant="iosub", unwind=20,
                  stubs=ENV + FILEREAD + IOSUB + CRCU, replay="solver-trace-only"))
